@@ -131,3 +131,99 @@ def writes_of_field(prog, field_pat, crates=None):
 
 def fn_short(b):
     return b.npath
+
+
+def edges_where(body, pred):
+    """edges (a, t) of switch blocks such that every label leading to t
+    satisfies pred(cond_expr, label)"""
+    out = set()
+    for a in body.live:
+        br = body.branch(a)
+        if not br:
+            continue
+        by_t = {}
+        for lab, tb in br[1]:
+            by_t.setdefault(tb, []).append(lab)
+        for tb, labs in by_t.items():
+            if all(pred(br[0], lab) for lab in labs):
+                out.add((a, tb))
+    return out
+
+
+def guarded_by(body, site, pred, prune_dead=True):
+    """every path entry -> site crosses an edge satisfying pred (set of edges,
+    not necessarily a single dominating one: handles or-patterns with guards
+    and short-circuit joins). Returns (ok, witness_path)"""
+    es = edges_where(body, pred)
+    rem = es | (body.dead_edges() if prune_dead else set())
+    if site not in body.live:
+        return True, None
+    r = body.reach([0], removed_edges=rem)
+    if site not in r:
+        return bool(es), None
+    return False, body.path_between([0], site, removed_edges=rem)
+
+
+def cmp_pred(op, lhs_pred, rhs_pred, truth):
+    """edge predicate: canonical comparison `lhs op rhs` has value `truth`"""
+
+    def p(c, lab):
+        if not isinstance(lab, bool):
+            return False
+        n = norm_cmp(c, lab)
+        return bool(n and n[0] == op and n[3] is truth and lhs_pred(n[1]) and rhs_pred(n[2]))
+
+    return p
+
+
+def is_const_int(v):
+    return lambda e: isinstance(e, tuple) and e[0] == "const" and e[2] == v
+
+
+def labels_in(lab, names):
+    """does switch label (variant name / ('otherwise', names) / ('oneof', ..)) lie within `names`?"""
+    if isinstance(lab, str):
+        return lab in names
+    if isinstance(lab, tuple) and lab and lab[0] == "otherwise":
+        return set(lab[1]) <= set(names)
+    if isinstance(lab, tuple) and lab and lab[0] == "oneof":
+        return all(labels_in(l, names) for l in lab[1])
+    return False
+
+
+def label_may_be(lab, name):
+    if isinstance(lab, str):
+        return lab == name
+    if isinstance(lab, tuple) and lab and lab[0] == "otherwise":
+        return name in lab[1]
+    if isinstance(lab, tuple) and lab and lab[0] == "oneof":
+        return any(label_may_be(l, name) for l in lab[1])
+    return True
+
+
+def reach_under(body, impossible, removed=()):
+    """blocks reachable from entry when every edge satisfying one of the
+    `impossible` edge predicates is deleted (an assumption about the state)"""
+    rem = set(body.dead_edges())
+    for p in impossible:
+        rem |= edges_where(body, p)
+    return body.reach([0], removed=removed, removed_edges=rem), rem
+
+
+def is_local_named(e, name):
+    return isinstance(e, tuple) and e[0] in ("var", "phi", "arg") and e[2] == name
+
+
+def agg_sites(body, pat):
+    """[(bb, stmt, expr)] for every assignment (to any place) of an aggregate
+    whose outermost or nested single-operand name matches pat"""
+    r = rx(pat)
+    out = []
+    for bb, i, s in body.assigns():
+        if s["rv"]["k"] != "agg":
+            continue
+        e = body.rv_expr(s["rv"], 6)
+        names, _ = agg_chain(e)
+        if any(r.search(n or "") for n in names):
+            out.append((bb, s, e))
+    return out
